@@ -107,7 +107,7 @@ class Sgp4Beta:
         )
         delta_0 = delta / self._init.a0 ** 2
         self._init.n0 = n0 / (1 + delta_0)
-        self._init.a0 = self._init.a0 / (1 - delta_0)
+        self._init.a0 = (k_e / self._init.n0) ** (2 / 3)
         rp = self._init.a0 * (1 - e0)  # perigee in fraction of earth radius
         rp_alt = (rp - 1) * r_e  # altitude of the perigee in km
 
